@@ -106,6 +106,11 @@ class GenModel:
                 l = strip_casts(e['e'])
                 if l.get('k') == 'ref' and 'd' in l:
                     d.setdefault(l['d'], []).append(('incdec', e, e))
+            if e.get('k') == 'call' and (e.get('callee') or '').split('::')[-1] in ('operator+=', 'operator-=', 'operator*=', 'operator/=', 'operator%=', 'operator|=', 'operator&=', 'operator^=', 'operator<<=', 'operator>>=') \
+                    and e.get('obj') is not None:
+                l = strip_casts(e['obj'])
+                if l.get('k') == 'ref' and l.get('dk') == 'var' and 'd' in l:
+                    d.setdefault(l['d'], []).append(('compound', e, e))
             if e.get('k') == 'call' and (e.get('callee') or '').endswith('::operator=') and e.get('obj') is not None and e['args']:
                 l = strip_casts(e['obj'])
                 if l.get('k') == 'ref' and l.get('dk') == 'var' and 'd' in l:
@@ -130,12 +135,41 @@ class GenModel:
         return a is not None and b is not None and a.get('k') == 'ref' and b.get('k') == 'ref' and \
             a.get('d') is not None and a.get('d') == b.get('d')
 
+    def streval(self, f, e, depth=0):
+        """constant string value through literals, constant globals, single-definition locals, std::string construction and '+'"""
+        e = strip_conv(strip_copies(strip_casts(e))) if e is not None else None
+        if e is None or depth > 10:
+            return None
+        k = e.get('k')
+        if k == 'paren':
+            return self.streval(f, e['e'], depth + 1)
+        if k == 'str':
+            return e['v']
+        if k == 'ref' and e.get('dk') == 'global':
+            gl = getattr(self.facts, 'globals', {}).get(e.get('q'))
+            return gl.get('const_str') if gl else None
+        if k == 'ref' and e.get('dk') == 'var':
+            o = self.origin(f, e)
+            return self.streval(f, o, depth + 1) if o is not None and o is not e else None
+        if k == 'construct' and e.get('args'):
+            return self.streval(f, e['args'][0], depth + 1)
+        if (k == 'call' and e.get('op') == '+') or (k == 'bin' and e.get('op') == '+'):
+            parts = ([e['l'], e['r']] if k == 'bin' else ([e['obj']] if e.get('obj') is not None else []) + list(e['args']))
+            vals = [self.streval(f, p, depth + 1) for p in parts]
+            return ''.join(vals) if vals and all(v is not None for v in vals) else None
+        return None
+
     # string value of an expression (through std::string construction)
     def strval(self, f, e):
         e = self.origin(f, e)
         while e is not None:
             if e.get('k') == 'str':
                 return e['v']
+            if e.get('k') == 'ref' and e.get('dk') == 'global':
+                gl = getattr(self.facts, 'globals', {}).get(e.get('q')) if hasattr(self, 'facts') else None
+                if gl is not None and gl.get('const_str') is not None:
+                    return gl['const_str']
+                return None
             if e.get('k') == 'construct' and e['args']:
                 e = self.origin(f, e['args'][0])
                 continue
